@@ -197,6 +197,18 @@ def r3_writers(ctx, chk, rule="C01.3"):
         # the backward search itself, asked another question (other arguments, further options)
         chk.violation(rule, f.where(), "the sweep domain is `%s`, not the unmodified result of the backward search over the game's transitions and final states" % show(dom)[:160],
                       expected=show(want), found=show(dom)[:160], construct="solve_reachability sweep domain")
+    elif _unwrapped(dom) is not None and _unwrapped(dom)[0] == "compr" and _unwrapped(dom)[1] in sx.loops \
+            and _unwrapped(sx.loops[_unwrapped(dom)[1]].source) == want and sx.loops[_unwrapped(dom)[1]].elt == ("elem", _unwrapped(dom)[1]) \
+            and sx.loops[_unwrapped(dom)[1]].filters:
+        L_ = sx.loops[_unwrapped(dom)[1]]
+        fin_ = ("v", f.params[2])
+        harmless = all(c_[0] == "cmp" and c_[1] == "notin" and c_[2] == ("elem", L_.id) and _unwrapped(c_[3]) == fin_ for c_ in L_.filters)
+        if harmless:
+            chk.ok(rule, f.where(), "sweep domain = the backward search's result without the final states (which it does not contain anyway)")
+        else:
+            chk.violation(rule, f.where(), "the sweep domain is the backward search's result FILTERED by `%s`: a state that fails the test can reach a final state and is never swept - "
+                          "its probability stays at its initial value" % show(L_.filters[0])[:100], expected=show(want), found=show(L_.filters[0])[:120],
+                          construct="solve_reachability sweep domain filtered")
     elif dom is None or mentions(dom, lambda x: x[0] in ("res", "apply", "compr") or (x[0] == "call" and x[1] not in ("reverse_dfs", "sorted", "list", "tuple", "set", "frozenset", "len", "range"))
                                  or (x[0] == "mcall" and x[1] == ("v", "self"))):
         chk.undecided(rule, f.where(), "the sweep domain is `%s`: how it derives from the backward search is not resolved" % (show(dom)[:100] if dom is not None else None))
@@ -653,6 +665,9 @@ def _is_log(st):
 
 
 def run(ctx, chk):
+    # observed through the batch driver: run_games()[name]['probabilities'] must be this game's, this mode's value
+    from . import C12 as _C12
+    _C12.observe(ctx, chk, "C01.obs", ['probabilities'])
     r1_kernels(ctx, chk)
     r2_start(ctx, chk)
     shared.rule_node_keeps_transitions(ctx, chk, "C01.2")
